@@ -224,8 +224,27 @@ func Frame(r *prng.R, o FrameOpt) *rec.Rec {
 			}
 		}
 		e.Set("ethertype", et).SetB("data", payloadBytes(r, dataLen(r, o)))
+		if r.Chance(1, 5) {
+			// a protocol the library has a codec for but does not dispatch from the frame type today: a real LLDPDU
+			// behind ethertype 0x88cc (opaque payload for the pinned tree; whatever decodes it must give it back whole)
+			e.Set("ethertype", 0x88cc).SetB("data", lldpdu(r))
+		}
 	}
 	return e
+}
+
+// lldpdu: chassis id, port id and TTL TLVs in this order, 0..3 optional TLVs, and the end-of-LLDPDU TLV (IEEE 802.1AB).
+func lldpdu(r *prng.R) []byte {
+	tlv := func(t int, v []byte) []byte {
+		return append([]byte{byte(t<<1 | len(v)>>8), byte(len(v))}, v...)
+	}
+	b := tlv(1, append([]byte{byte(r.Range(1, 7))}, r.Bytes(r.Pick(1, 6, 6, 17, 255))...))
+	b = append(b, tlv(2, append([]byte{byte(r.Range(1, 7))}, r.Bytes(r.Pick(1, 2, 6, 30))...))...)
+	b = append(b, tlv(3, []byte{byte(r.Bits(8)), byte(r.Bits(8))})...)
+	for k := r.Pick(0, 1, 2, 3); k > 0; k-- {
+		b = append(b, tlv(r.Pick(4, 5, 6, 7, 8, 127), r.Bytes(r.Pick(0, 2, 4, 12, 40, 300)))...)
+	}
+	return append(b, 0, 0)
 }
 
 func DHCP(r *prng.R) *rec.Rec {
